@@ -262,6 +262,14 @@ def derived(case):
             check(p)
             p.reset()
             check(p)
+            # re-assignments with values that compare equal under == but are different constants
+            for a, b_ in ((1, True), (1.0, 1), (0, False), (False, 0), (None, 0)):
+                p.assign(a)
+                check(p)
+                p.assign(b_)
+                check(p)
+            p.reset()
+            check(p)
     return out
 
 
